@@ -1,5 +1,6 @@
 """C02 — validator terminates with a verdict on any byte string."""
 
+import importlib
 import signal
 
 from hypothesis import strategies as st
@@ -70,12 +71,52 @@ def judge(data, col, meta=None):
     try:
         msg = S.check_error_reporting(e)
     except Exception as x:
-        col.fail("report:%s:%s" % (type(e).__name__, type(x).__name__), rec,
-                 "%s could not be explained/located/hinted: %s: %s" % (type(e).__name__, type(x).__name__, x))
+        # explain()/hint called as library functions failed. The property's subject is the validator *tool*, which may
+        # prepare the interpreter before reporting (e.g. lift Python's int->str digit limit): ask the tool itself.
+        tool = explained_by_tool(data)
+        if tool is not None:
+            col.fail("report:%s:%s" % (type(e).__name__, type(x).__name__), rec,
+                     "%s could not be explained/located/hinted: %s: %s; validator command: %s" % (type(e).__name__, type(x).__name__, str(x)[:200], tool))
+        else:
+            col.count("explained_by_tool_only")
         return "err:" + type(e).__name__, nontrivial
     if msg:
         col.fail("report:%s" % type(e).__name__, rec, "%s: %s" % (type(e).__name__, msg))
     return "err:" + type(e).__name__, nontrivial
+
+
+def explained_by_tool(data):
+    """Run the real validator command in-process on data; None if it exits 2 with a located explanation and a viewer
+    hint, otherwise a description of what went wrong."""
+    import contextlib
+    import io
+    import os
+    import re
+    import shutil
+    import tempfile
+
+    V = importlib.import_module("vc2_conformance.scripts.vc2_bitstream_validator")
+    d = tempfile.mkdtemp(prefix="vpbt-c02-", dir="/tmp")
+    out, err = io.StringIO(), io.StringIO()
+    try:
+        path = os.path.join(d, "in.vc2")
+        with open(path, "wb") as f:
+            f.write(data)
+        try:
+            with S.size_guard(), contextlib.redirect_stdout(out), contextlib.redirect_stderr(err):
+                code = V.main([path, "--no-status", "--output", os.path.join(d, "p_%d.raw")])
+        except BaseException as x:
+            return "%s escaped main(): %s" % (type(x).__name__, str(x)[:200])
+        if code != 2:
+            return "exit status %r: %s" % (code, err.getvalue().strip()[-200:])
+        text = out.getvalue()
+        if not re.search(r"Conformance error at bit offset \d+\n=+\n", text):
+            return "exit status 2 without a located explanation"
+        if "vc2-bitstream-viewer" not in text:
+            return "exit status 2 without a bitstream viewer hint"
+        return None
+    finally:
+        shutil.rmtree(d, ignore_errors=True)
 
 
 def body(case, col):
